@@ -919,7 +919,9 @@ void bodyInvalid(vrt::Case& c)
   auto negv = [&] { return -g.logReal(1e-6, 1e3); };
   auto badp = [&] { return g.chance(0.5) ? -g.logReal(1e-12, 1e3) : 1 + g.logReal(1e-12, 1e3); };
   auto shape = [&] { return g.logReal(0.05, 200); };
-  auto prob = [&] { return g.real(0.01, 0.99); };
+  // probabilities for the invalid-shape calls: the interior, and the ends 0 / 1 and their neighbourhood, where a
+  // quantile function may leave through an early exit before it has looked at its shape arguments
+  auto prob = [&] { double u = g.unit(); return u < 0.15 ? 0. : u < 0.3 ? 1. : u < 0.4 ? 1e-6 : u < 0.5 ? 1 - 1e-6 : g.real(0.01, 0.99); };
   int n = c.tier ? 40 : 10;
   for (int i = 0; i < n; ++i)
   {
